@@ -368,6 +368,9 @@ theorem namesOk_positional {pre : Name} {avoid : List Name} (hpre : 1 ≤ pre.le
 distinct -/
 def ValidSig (ps : List Param) : Prop := ((names ps).filter usable).Nodup
 
+instance (ps : List Param) : Decidable (ValidSig ps) :=
+  inferInstanceAs (Decidable ((names ps).filter usable).Nodup)
+
 /-- the renamed list is fine as soon as it has no missing name and no captured binder -/
 theorem namesOk_renameBlankWith {pre : Name} {avoid : List Name} (hpre : 1 ≤ pre.length)
     (ps : List Param) (hv : ValidSig ps)
